@@ -237,7 +237,7 @@ RICH_FILES = [('T',), ('TOP.TXT',), ('S', 'X'), ('S', 'SECRET.TXT'), ('S', 'F'),
               ('S', 'M', 'LongDirectoryName', 'F'), ('S', 'M2', 'F'), ('S', 'M2', 'A', 'N')]
 RICH_ROOTS = {b'C': ['S', 'M'], b'D': ['S', 'M2'], b'E': ['S', 'M', 'A']}      # E: is nested inside C:
 FRAG_ELEMS = [b'..', b'.', b'', b'A', b'B', b'F', b'N', b'a', b'A ', b'.. ', b'. ', b'..  ', b'N.A', b'F.', b'...', b' A', b'AA', b'B.B']
-FRAG_CHARS = b'ABFNa. \\'
+FRAG_CHARS = b'ABFNa. \\ABFNa. \\/'
 GARBAGE = b'ABCDEFGHIJKLMNOPQRSTUVWXYZ@:\\/.*? '
 
 
@@ -249,7 +249,10 @@ def frag_path(rng, maxel=5):
         s = b'\\'.join(rng.choice(FRAG_ELEMS) for _ in range(rng.randint(0, maxel)))
         if rng.random() < 0.3:
             s = b'\\' + s
-    if s.startswith(b'\\\\') and rng.random() < 0.9:
+    if rng.random() < 0.12 and b'\\' in s:
+        i = rng.choice([k for k, ch in enumerate(s) if ch == 92])
+        s = s[:i] + b'/' + s[i + 1:]
+    if s[:2] in (b'\\\\', b'//', b'\\/', b'/\\') and rng.random() < 0.9:
         s = s[1:]
     c = rng.random()
     if c < 0.25:
@@ -296,10 +299,11 @@ def run(ctx):
     if not quick and not dev:
         for cfg in ('DosPath_MC_all.cfg', 'DosPath_MC_2drv.cfg', 'DosPath_MC_nested.cfg', 'DosPath_MC_dyn.cfg'):
             ctx.model_check('DosPath_MC', cfg=cfg, workers=16, require_actions=False)
-    r = ctx.tlc('DosPath_MC', 'DosPath_MC_ascoded.cfg', workers=1, tag='ascoded (must fail)')
-    if r['ok'] or 'CwdInside' not in (r['error'] or ''):
-        raise core.MachineryError('selftest: TLC did not find the ".. " escape in the as-coded model: %s' % r['error'])
-    ctx.cov['ascoded_counterexample_found'] = True
+    if not dev:
+        r = ctx.tlc('DosPath_MC', 'DosPath_MC_ascoded.cfg', workers=1, tag='ascoded (must fail)')
+        if r['ok'] or 'CwdInside' not in (r['error'] or ''):
+            raise core.MachineryError('selftest: TLC did not find the ".. " escape in the as-coded model: %s' % r['error'])
+        ctx.cov['ascoded_counterexample_found'] = True
     boxes = []
     # 2. spec -> code: replay every transition
     boxes.append(replay_model(ctx, 'DosPath_MC_emit.cfg', workers=4))
